@@ -2029,8 +2029,41 @@ func (c *Ctx) rulePageCursor() {
 		c.ob("R-PAGECURSOR", fmt.Sprintf("GetKeysPaged:cursor-comparison#%d", n), call.Pos(), fromAfter && !fromPrefix && strict,
 			fmt.Sprintf("the cursor comparison must be `key > AfterKey` (derived from AfterKey=%v, from Prefix=%v, strict=%v)", fromAfter, fromPrefix, strict))
 	})
+	// operator form: fKey > req.AfterKey on strings
+	eachInstr(f, func(_ *ssa.BasicBlock, _ int, in ssa.Instruction) {
+		bo, ok := in.(*ssa.BinOp)
+		if !ok || !isCmp(bo.Op) {
+			return
+		}
+		if bt, isB := bo.X.Type().Underlying().(*types.Basic); !isB || bt.Info()&types.IsString == 0 {
+			return
+		}
+		derives := func(v ssa.Value) (after, prefix bool) {
+			for w := range backwardSlice(v, nil) {
+				if _, fv, ok := fieldLoad(w); ok && fv != nil {
+					switch fv.Name() {
+					case "AfterKey":
+						after = true
+					case "Prefix":
+						prefix = true
+					}
+				}
+			}
+			return
+		}
+		xa, xp := derives(bo.X)
+		ya, yp := derives(bo.Y)
+		if !xa && !ya {
+			return
+		}
+		n++
+		// key > cursor  or  cursor < key, strictly, the cursor operand free of the prefix
+		okCmp := (bo.Op == token.GTR && ya && !yp && !xa) || (bo.Op == token.LSS && xa && !xp && !ya)
+		c.ob("R-PAGECURSOR", fmt.Sprintf("GetKeysPaged:cursor-comparison#%d", n), bo.Pos(), okCmp,
+			"the cursor comparison must be the strict `key > AfterKey`, the cursor derived from AfterKey alone")
+	})
 	if n == 0 {
-		c.ob("R-PAGECURSOR", "GetKeysPaged:cursor-comparison", f.Pos(), false, "no Compare call found (anchor changed)")
+		c.ob("R-PAGECURSOR", "GetKeysPaged:cursor-comparison", f.Pos(), false, "no comparison of a listed key with the cursor found (anchor changed)")
 	}
 }
 
